@@ -410,6 +410,8 @@ def payload_templates():
     T.append(('registered-othersep', lambda t: b('MSH#^~\\&#a#b#c#d#e##ADT^A01#' + t + '#P#2.5'), 'registered:ADT^A01'))
     T.append(('registered-padded', lambda t: b('MSH|^~\\&|' + t + '||||||  ADT^A01 |1|P|2.5\rEVN|A01'), 'registered:ADT^A01'))
     T.append(('registered-27', lambda t: b('MSH|^~\\&#|a|b|c|d|e||ADT^A01|' + t + '|P|2.7'), 'registered:ADT^A01'))
+    # line feeds are ordinary payload bytes (multi-line NTE text, CR LF terminated senders)
+    T.append(('registered-linefeed', lambda t: b('MSH|^~\\&|a|b|c|d|e||ADT^A01|' + t + '|P|2.5\rNTE|1||line one\nline two\r\nPID|1'), 'registered:ADT^A01'))
     T.append(('unregistered-short', lambda t: b('MSH|^~\\&|||||||ACK^A99|' + t), 'unregistered'))
     T.append(('unregistered-long', lambda t: b(LONG_TPL % ('QBP^Q22^QBP_Q21', t)), 'unregistered'))
     T.append(('unregistered-nomsh9', lambda t: b('MSH|^~\\&|' + t), 'unregistered'))
